@@ -194,7 +194,10 @@ impl Cw20 {
     pub fn new(rng: &mut Rng) -> Cw20 {
         let h = rng.range(1, 5000);
         let t = rng.range(1_500_000_000, 1_900_000_000);
-        Cw20 { w: World::new(h, t) }
+        let mut w = World::new(h, t);
+        // block times are rarely whole seconds
+        w.block.time = w.block.time.plus_nanos(rng.below(1_000_000_000));
+        Cw20 { w }
     }
 
     pub fn instantiate(&mut self, cfg: &InitCfg) -> Res<Response> {
